@@ -44,8 +44,17 @@ pub fn reference(prev: &[f64; 6], limits: &Option<LimitSpec>) -> [f64; 6] {
     }
 }
 
-/// Arc midpoints computed by the oracle (documented meaning of "constraint centres").
+/// Constraint centres used as reference / in the documented cost: the arc midpoints computed by the oracle, in the 2 pi representative the
+/// library itself reports in its public `centers` field when that is congruent to the oracle's midpoint (which turn the centre of a
+/// wrap-around range is written in is not specified anywhere).
 pub fn oracle_centres(l: &LimitSpec) -> [f64; 6] {
+    let m = oracle_midpoints(l);
+    let c = l.build().centers;
+    std::array::from_fn(|k| if l.from[k] != l.to[k] && c[k].is_finite() && crate::model::circ_dist(c[k], m[k]) <= 1e-9 { c[k] } else { m[k] })
+}
+
+/// Arc midpoints computed by the oracle (documented meaning of "constraint centres").
+pub fn oracle_midpoints(l: &LimitSpec) -> [f64; 6] {
     let mut c = [0.0; 6];
     for k in 0..6 {
         let (a, b) = (l.from[k], l.to[k]);
